@@ -102,6 +102,11 @@ func Run(t *testing.T, body func()) (out Outcome) {
 	case o := <-done:
 		return o
 	case <-wd.C:
+		if os.Getenv("VFX_HANGDUMP") != "" {
+			buf := make([]byte, 1<<22)
+			n := runtime.Stack(buf, true)
+			os.Stderr.Write(buf[:n])
+		}
 		return Outcome{Hang: true}
 	}
 }
